@@ -220,6 +220,9 @@ func (e *Engine) lookupTypeAnywhere(ty string) types.Type {
 		return nil
 	}
 	pn, tn := ty[:i], ty[i+1:]
+	if path := e.aliasPath(pn); path != "" {
+		pn = path // an import alias used by some loaded file (coreerrors -> tunnox-core/internal/core/errors)
+	}
 	for _, p := range e.pkgs {
 		cands := append([]*types.Package{p.Types}, p.Types.Imports()...)
 		for _, c := range cands {
@@ -799,4 +802,20 @@ func (e *Engine) prepareClosure(parent string, k int) (string, error) {
 		return true
 	})
 	return key, nil
+}
+
+
+// aliasPath: the import path some loaded file binds to the local name `name` (import aliases are file-scoped, so
+// types.Eval at package scope does not see them).
+func (e *Engine) aliasPath(name string) string {
+	for _, p := range e.pkgs {
+		for _, f := range p.Syntax {
+			for _, im := range f.Imports {
+				if im.Name != nil && im.Name.Name == name {
+					return strings.Trim(im.Path.Value, "\"")
+				}
+			}
+		}
+	}
+	return ""
 }
